@@ -5,3 +5,4 @@ import LnnVerif.Props.C06
 import LnnVerif.Props.C13
 import LnnVerif.Props.C17
 import LnnVerif.Props.C07
+import LnnVerif.Props.C03
